@@ -406,6 +406,126 @@ void WgCase(Ctx& ctx, bool timed_focus) {
 }
 
 // ------------------------------------------------------------------------------------------------
+// WaitGroup with no guard count: several futures attached / consumed in ONE call while their producers are already
+// running.  The group's count starts at zero, so the call itself must account for all of them before any of them can
+// complete it; the waiter must not be released before every future has completed.
+void BulkAttachCase(Ctx& ctx) {
+  int n = static_cast<int>(ctx.rng.In(2, 4));
+  int form = static_cast<int>(ctx.rng.Below(4));  // 0 Attach(fs...), 1 Attach(begin,end), 2 Consume(fs...), 3 Consume(begin,n)
+  struct P {
+    int code = 0;
+    u32 jit = 0;
+    bool before = false;
+    u64 set_call = 0, set_ret = 0;
+  };
+  std::vector<P> ps(static_cast<std::size_t>(n));
+  std::vector<yaclib::Future<Tracked, MyError>> fs;
+  std::vector<yaclib::Promise<Tracked, MyError>> prs;
+  for (int i = 0; i < n; ++i) {
+    auto& p = ps[static_cast<std::size_t>(i)];
+    p.code = 100 * (i + 1) + static_cast<int>(ctx.rng.Below(100));
+    p.jit = ctx.rng.Below(6);
+    p.before = ctx.rng.Below(5) == 0;
+    auto [f, pr] = yaclib::MakeContract<Tracked, MyError>();
+    fs.push_back(std::move(f));
+    prs.push_back(std::move(pr));
+  }
+  u32 rjit = ctx.rng.Below(6);
+  int waiter_kind = static_cast<int>(ctx.rng.Below(2));  // 0 root Wait(), 1 extra thread Wait() + root Wait()
+  ctx.Note("WaitGroup{0}: %s of %d futures while their producers run ",
+           form == 0 ? "Attach(fs...)" : form == 1 ? "Attach(begin,end)" : form == 2 ? "Consume(fs...)" : "Consume(begin,n)", n);
+  std::atomic<long> begun{0};
+  long seen_root = -1, seen_extra = -1;
+  u64 wait_ret = 0;
+  {
+    yaclib::WaitGroup<> wg;
+    std::vector<yaclib_std::thread> ts;
+    auto fulfil = [&](int i) {
+      auto& p = ps[static_cast<std::size_t>(i)];
+      begun.fetch_add(1, kRlx);
+      p.set_call = Stamp();
+      std::move(prs[static_cast<std::size_t>(i)]).Set(Tracked{p.code});
+      p.set_ret = Stamp();
+    };
+    for (int i = 0; i < n; ++i) {
+      if (ps[static_cast<std::size_t>(i)].before) {
+        fulfil(i);
+      } else {
+        ts.emplace_back([&, i] {
+          Jitter(ps[static_cast<std::size_t>(i)].jit);
+          fulfil(i);
+        });
+      }
+    }
+    Jitter(rjit);
+    switch (form) {
+      case 0:
+        if (n == 2) {
+          wg.Attach(fs[0], fs[1]);
+        } else if (n == 3) {
+          wg.Attach(fs[0], fs[1], fs[2]);
+        } else {
+          wg.Attach(fs[0], fs[1], fs[2], fs[3]);
+        }
+        break;
+      case 1:
+        wg.Attach(fs.begin(), fs.end());
+        break;
+      case 2:
+        if (n == 2) {
+          wg.Consume(std::move(fs[0]), std::move(fs[1]));
+        } else if (n == 3) {
+          wg.Consume(std::move(fs[0]), std::move(fs[1]), std::move(fs[2]));
+        } else {
+          wg.Consume(std::move(fs[0]), std::move(fs[1]), std::move(fs[2]), std::move(fs[3]));
+        }
+        break;
+      default:
+        wg.Consume(fs.begin(), fs.size());
+        break;
+    }
+    if (waiter_kind == 1) {
+      ts.emplace_back([&] {
+        wg.Wait();
+        seen_extra = begun.load(kRlx);
+      });
+    }
+    wg.Wait();
+    seen_root = begun.load(kRlx);
+    wait_ret = Stamp();
+    for (auto& t : ts) {
+      t.join();
+    }
+    ctx.Check(wg.Count() == 0, "count-zero", "C16", "count is %zu after every attached future completed", wg.Count());
+    if (form <= 1) {
+      for (int i = 0; i < n; ++i) {
+        auto& f = fs[static_cast<std::size_t>(i)];
+        bool ok = f.Valid() && f.Ready();
+        if (ok) {
+          auto r = std::move(f).Get();
+          ok = r.State() == yaclib::ResultState::Value && std::as_const(r).Value().Fresh() &&
+               std::as_const(r).Value().v == ps[static_cast<std::size_t>(i)].code;
+        }
+        ctx.Check(ok, "attached-result", "C16", "attached future %d is not valid/Ready with its result after Wait returned", i);
+      }
+    }
+  }
+  bool overlapped = false;
+  for (auto& p : ps) {
+    overlapped = overlapped || !p.before;
+  }
+  ctx.SetNontrivial(overlapped);
+  ctx.Class(form <= 1 ? "attach" : "consume");
+  ctx.Check(seen_root == n, "released-before-zero", "C16",
+            "Wait() returned when only %ld of %d attached futures had even begun to complete", seen_root, n);
+  if (waiter_kind == 1) {
+    ctx.Check(seen_extra == n, "released-before-zero", "C16",
+              "a second Wait() returned when only %ld of %d attached futures had even begun to complete", seen_extra, n);
+  }
+  (void)wait_ret;
+}
+
+// ------------------------------------------------------------------------------------------------
 // OneShotEvent directly
 
 struct EJob final : yaclib::Job {
@@ -530,6 +650,9 @@ VF_CELL(wg_mixed, "waitgroup/mixed-waiters", "C16,C03,C04,C13", 30) {
 }
 VF_CELL(wg_timed, "waitgroup/timed-waiters", "C16,C03", 20) {
   WgCase(ctx, true);
+}
+VF_CELL(wg_bulk, "waitgroup/bulk-attach-racing", "C16,C03", 14) {
+  BulkAttachCase(ctx);
 }
 VF_CELL(ev_direct, "one-shot-event/direct", "C16,C03,C04", 12) {
   EventCase(ctx);
